@@ -43,7 +43,7 @@ def gen_struct(rng, depth=0, kinds=("obs", "obs", "list", "array", "corr", "corr
         s["n"] = rng.randint(2, 4)      # a one-element list cell / structure comes back as a bare Obs (documented unpacking)
         s["tags"] = [rng.randrange(len(TAGS)) if rng.random() < 0.4 else 0 for _ in range(s["n"])]
     elif k == "array":
-        s["shape"] = rng.choice([[1], [3], [2, 2], [1, 3], [2, 1, 2], [2, 3], [3, 2]])
+        s["shape"] = rng.choice([[1], [3], [2, 2], [1, 3], [2, 1, 2], [2, 3], [3, 2], [1, 1], [1, 2, 1, 2]])
         s["order"] = rng.choice(["C", "C", "F", "T", "swap"])      # memory layout of the ndarray handed to the exporter
         n = int(np.prod(s["shape"]))
         s["tags"] = [rng.randrange(len(TAGS)) if rng.random() < 0.3 else 0 for _ in range(n)]
